@@ -346,7 +346,71 @@ def _writes(text):
     for m in re.finditer(r"(?:\+\+|--)\s*([A-Za-z_]\w*)", text):
         out.append((m.group(1), False))
     for m in re.finditer(r"\*\s*([A-Za-z_]\w*)\s*%s" % _ASSIGN, text):
+        before = text[max(0, m.start() - 40):m.start()]
+        if re.search(r"(?:\b(?:double|int64_t|int|char|long|float|const|unsigned)\b|\*)\s*$", before):
+            continue      # `double *p = …` is a declaration with initialiser, not a store through p
         out.append((m.group(1), True))
+    return out
+
+
+def _fold_product(expr):
+    """normal form of a pure product: integer literals multiplied, factors sorted, `1 *` dropped; other expressions unchanged"""
+    e = expr.strip()
+    while e.startswith("(") and match_brace(e, 0, "(", ")") == len(e) - 1:
+        e = e[1:-1].strip()
+    depth, parts, cur = 0, [], []
+    for ch in e:
+        if ch in "([":
+            depth += 1
+        elif ch in ")]":
+            depth -= 1
+        if depth == 0 and ch in "+-/%<>=&|?:,":
+            return re.sub(r"\s+", " ", e)
+        if depth == 0 and ch == "*":
+            parts.append("".join(cur).strip())
+            cur = []
+        else:
+            cur.append(ch)
+    parts.append("".join(cur).strip())
+    flat = []
+    for q in parts:
+        q = re.sub(r"^\(\s*(?:int64_t|int|long|double)\s*\)\s*", "", q)          # value casts
+        if q.startswith("(") and match_brace(q, 0, "(", ")") == len(q) - 1:
+            inner = _fold_product(q[1:-1])
+            if not re.search(r"[+\-/%<>=&|?:,]", inner):
+                flat += [x.strip() for x in inner.split("*")]
+                continue
+        flat.append(q)
+    const, rest = 1, []
+    for q in flat:
+        if re.fullmatch(r"\d+", q):
+            const *= int(q)
+        else:
+            rest.append(q)
+    rest.sort()
+    if const != 1 or not rest:
+        rest = [str(const)] + rest
+    return " * ".join(rest)
+
+
+def _single_assignments(fn_body, decls):
+    """local scalar -> defining expression, for scalars assigned exactly once (declaration initialiser or one statement)"""
+    cnt, val = {}, {}
+    for m in re.finditer(r"(?<![\w\]\.>])([A-Za-z_]\w*)\s*=(?!=)\s*([^;,]+)[;,]", fn_body):
+        x = m.group(1)
+        if decls.get(x) == "scalar":
+            cnt[x] = cnt.get(x, 0) + 1
+            val[x] = m.group(2).strip()
+    for m in re.finditer(r"(?<![\w\]\.>])([A-Za-z_]\w*)\s*(?:\+=|-=|\*=|/=|\+\+|--)|(?:\+\+|--)\s*([A-Za-z_]\w*)", fn_body):
+        x = m.group(1) or m.group(2)
+        cnt[x] = cnt.get(x, 0) + 2
+    return {x: v for x, v in val.items() if cnt.get(x) == 1 and not re.search(r"\b%s\b" % re.escape(x), v)}
+
+
+def _subst_locals(expr, singles, depth=0):
+    if depth > 4:
+        return expr
+    out = re.sub(r"[A-Za-z_]\w*", lambda m: "(" + _subst_locals(singles[m.group(0)], singles, depth + 1) + ")" if m.group(0) in singles else m.group(0), expr)
     return out
 
 
@@ -441,12 +505,37 @@ def _alias_roots(fn, macros):
         close = match_brace(body, m.end() - 1, "(", ")")
         arg = " ".join(body[m.end():close].split())
         if m.group(2) == "calloc":
-            parts = split_top(arg)
-            arg = "%s * %s" % (parts[1].strip(), parts[0].strip()) if len(parts) == 2 else arg
-        mm = re.match(r"sizeof\s*\(([^)]*(?:\[[^\]]*\])*[^)]*)\)\s*\*\s*(.*)$", arg)
-        elem, count = (mm.group(1).strip(), mm.group(2).strip()) if mm else ("?", arg)
+            arg = " * ".join("(%s)" % a_.strip() for a_ in split_top(arg))
+        # element type = the sizeof factor, element count = product of the other factors
+        facs, depth_, cur_ = [], 0, []
+        for ch in arg:
+            if ch in "([":
+                depth_ += 1
+            elif ch in ")]":
+                depth_ -= 1
+            if depth_ == 0 and ch == "*":
+                facs.append("".join(cur_).strip())
+                cur_ = []
+            else:
+                cur_.append(ch)
+        facs.append("".join(cur_).strip())
+        flat_ = []
+        for q_ in facs:
+            while q_.startswith("(") and match_brace(q_, 0, "(", ")") == len(q_) - 1 and not q_.startswith("(*"):
+                q_ = q_[1:-1].strip()
+            flat_ += [x_.strip() for x_ in (q_.split(" * ") if "sizeof" in q_ and "+" not in q_ else [q_])]
+        elem = "?"
+        rest_ = []
+        for q_ in flat_:
+            mm = re.fullmatch(r"sizeof\s*\((.*)\)", q_)
+            if mm and elem == "?":
+                elem = mm.group(1).strip()
+            else:
+                rest_.append(q_)
+        count = " * ".join(rest_) if rest_ else "1"
         count = re.sub(r"\b(\w+)\b", lambda q: macros.get(q.group(1), q.group(1)), count)
-        roots[m.group(1)] = ("temp", elem, _canon_expr(count, params))
+        count = _subst_locals(count, _single_assignments(body, decls))
+        roots[m.group(1)] = ("temp", elem, count)        # in the function's own names; resolved to entry points later
     changed = True
     while changed:
         changed = False
@@ -508,6 +597,14 @@ def _reachers(funcs):
     return entries
 
 
+def _canon_bound(bound, var, resolve):
+    """`v < SIZE` (or `v <= SIZE`): the iteration-space size, resolved to the entry points' parameters and with products folded"""
+    m = re.match(r"^\s*%s\s*(<=|<)\s*(.*)$" % re.escape(var), bound)
+    if not m:
+        return "V ? " + "/".join(sorted(resolve(re.sub(r"\b%s\b" % re.escape(var), "V", bound))))
+    return "V %s %s" % (m.group(1), "/".join(sorted(resolve(m.group(2)))))
+
+
 def canonical(repo):
     funcs = _all_functions(repo)
     macros = {}
@@ -515,6 +612,51 @@ def canonical(repo):
         macros.update(dict((k, v.strip("()")) for k, v in re.findall(r"^[ \t]*#define\s+(\w+)\s+(\(?-?\d+\)?)\s*$", strip_comments(open(os.path.join(repo, f)).read()), re.M)))
     wp, info = _written_params(funcs, macros)
     entries = _reachers(funcs)
+    sites = {n: [] for n in funcs}
+    for n, f in funcs.items():
+        for g, args in _calls(f["body"][1:-1], funcs):
+            if g != n:
+                sites[g].append((n, args))
+    singles = {n: _single_assignments(f["body"], info[n][1]) for n, f in funcs.items()}
+
+    def resolve_expr(fname, expr, seen=()):
+        """expression of `fname`'s parameters/locals -> set of canonical expressions over the parameters (by position)
+        of the external-linkage functions that reach it (static helpers are inlined along every call chain)"""
+        f = funcs[fname]
+        params = info[fname][2]
+        e = _subst_locals(expr, singles[fname])
+        e = re.sub(r"\b(\w+)\b", lambda q: macros.get(q.group(1), q.group(1)), e)
+        if not f["static"] or fname in seen or not sites[fname] or len(seen) > 6:
+            return {_fold_product(_canon_expr(e, params))}
+        pidx = {n_: k for k, (n_, _) in enumerate(params)}
+        out = set()
+        for caller, args in sites[fname]:
+            e2 = re.sub(r"[A-Za-z_]\w*", lambda m_: "(" + args[pidx[m_.group(0)]] + ")" if m_.group(0) in pidx and pidx[m_.group(0)] < len(args) else m_.group(0), e)
+            out |= resolve_expr(caller, e2, seen + (fname,))
+        return out
+
+    def resolve_root(fname, r, seen=()):
+        """root object of `fname` -> set of strings over the external entry points"""
+        if r[0] == "temp":
+            return {"temp:%s:%s" % (r[1], "/".join(sorted(resolve_expr(fname, r[2]))))}
+        if r[0] != "param":
+            return {"ptr:%s" % r[1]}
+        f = funcs[fname]
+        if not f["static"] or fname in seen or not sites[fname] or len(seen) > 6:
+            return {"param:%d" % r[1]}
+        out = set()
+        for caller, args in sites[fname]:
+            if r[1] >= len(args):
+                continue
+            x = _root(args[r[1]])
+            cr = info[caller][0].get(x or "")
+            if cr is None:
+                kind = info[caller][1].get(x)
+                out.add("local:%s" % kind if kind else "ptr:?")
+            else:
+                out |= resolve_root(caller, cr, seen + (fname,))
+        return out
+
     prag, mall = [], []
     for n, f in sorted(funcs.items()):
         roots, decls, params = info[n]
@@ -522,8 +664,9 @@ def canonical(repo):
         # ---- mallocs of this function
         for x, r in sorted(roots.items()):
             if r[0] == "temp" and re.search(r"\b%s\s*=\s*(?:\([^;=]*?\)\s*)?(?:malloc|calloc)" % re.escape(x), body):
-                mall.append(dict(file=f["file"], function=n, var=x, elem=r[1], count=r[2],
-                                 key="%s|%s|%s|%s" % (f["file"], ",".join(entries(n)), r[1], r[2])))
+                cnt = "/".join(sorted(resolve_expr(n, r[2])))
+                mall.append(dict(file=f["file"], function=n, var=x, elem=r[1], count=cnt,
+                                 key="%s|%s|%s|%s" % (f["file"], ",".join(entries(n)), r[1], cnt)))
         # ---- pragmas of this function
         for m in re.finditer(r"^[ \t]*#pragma\s+omp\b((?:[^\n\\]|\\\n|\\.)*)$", body, re.M):
             clause = re.sub(r"\s+", " ", re.sub(r"\\\n", " ", m.group(1))).strip()
@@ -561,10 +704,8 @@ def canonical(repo):
                     return     # allocated per iteration inside the body
                 if r is None:
                     wroots.add("ptr:%s" % x)
-                elif r[0] == "param":
-                    wroots.add("param:%d" % r[1])
                 else:
-                    wroots.add("temp:%s:%s" % (r[1], r[2]))
+                    wroots.update(resolve_root(n, r))
 
             for x, idx in _writes(lbody):
                 if x in ("for", "if", "while", "return") or (x not in decls and x not in inner_decl and not any(p_ == x for p_, _ in params)):
@@ -584,7 +725,8 @@ def canonical(repo):
                         else:
                             classify(x, direct_assign=False)
             rec = dict(file=f["file"], function=n, entries=entries(n), directive=directive, loop_var=var,
-                       bound=_canon_expr(bound, params, var), cond=_canon_expr(cond, params, var) if cond else "",
+                       bound=_canon_bound(bound, var, lambda e_: resolve_expr(n, e_)),
+                       cond="/".join(sorted(resolve_expr(n, re.sub(r"\b%s\b" % re.escape(var), "V", cond)))) if cond else "",
                        other_clauses=other, shared_written_locals=sorted(shared_locals), shared_written_roots=sorted(wroots),
                        thread_private=sorted(private))
             rec["key"] = "%s|%s|%s|%s|if(%s)|%s|shared-locals[%s]|writes[%s]" % (
